@@ -188,6 +188,12 @@ func (fr *Frame) loopHead(b *ssa.BasicBlock) {
 				Props: inv.Props, PC: fr.pc, Goal: t, Where: inv.Where, Src: inv.Src})
 		}
 	}
+	// 2b. automatic frame invariants (functions with a declared modifies set)
+	autoInvs := fr.autoFrameInvs(b)
+	for _, ai := range autoInvs {
+		c.oblige(&Obligation{Name: fr.oblName("inv-init", fmt.Sprintf("loop%d:frame:%s", ord, ai.comp)), Kind: "inv-init", Label: "frame:" + ai.comp,
+			PC: fr.pc, Goal: ai.goal(fr.st), Where: fr.fc.Where, Src: "automatic loop frame invariant for component " + ai.comp})
+	}
 	// 3. havoc
 	key := fr.loopKey(b)
 	if c.dry {
@@ -225,13 +231,17 @@ func (fr *Frame) loopHead(b *ssa.BasicBlock) {
 			c.assert(implies(fr.pc, f))
 		}
 	}
-	// every pointer-like value held in a variable refers to an allocated object
+	// every pointer-like value held in a variable refers to an allocated object;
+	// the compiler-generated index of a range loop starts at -1 and only grows
 	for _, in := range b.Instrs {
 		ph, ok := in.(*ssa.Phi)
 		if !ok {
 			break
 		}
 		fr.assumeAlive(fr.vals[ph], ph.Type())
+		if ph.Comment == "rangeindex" {
+			c.assert(implies(fr.pc, "(and (>= "+fr.vals[ph]+" (- 1)) (< "+fr.vals[ph]+" 9223372036854775807))"))
+		}
 	}
 	// alloc only grows
 	if al, ok := fr.st.comps["alloc"]; ok {
@@ -240,6 +250,9 @@ func (fr *Frame) loopHead(b *ssa.BasicBlock) {
 		}
 	}
 	fr.loopHeadState(b)
+	for _, ai := range autoInvs {
+		c.assert(implies(fr.pc, ai.goal(fr.st)))
+	}
 	// 4. assume invariant
 	if spec != nil {
 		for _, inv := range spec.Invs {
@@ -332,6 +345,10 @@ func (fr *Frame) backEdge(p, h *ssa.BasicBlock, cond Term) {
 	defer func() { fr.st = saved }()
 	for _, gs := range spec.Sets {
 		fr.applyLoopGhostSet(gs, h, p, subst)
+	}
+	for _, ai := range fr.autoFrameInvs(h) {
+		c.oblige(&Obligation{Name: fr.oblName("inv-step", fmt.Sprintf("loop%d:frame:%s", ord, ai.comp)), Kind: "inv-step", Label: "frame:" + ai.comp,
+			PC: cond, Goal: ai.goal(fr.st), Where: fr.fc.Where, Src: "automatic loop frame invariant for component " + ai.comp})
 	}
 	for _, inv := range spec.Invs {
 		e := fr.env(h)
@@ -1216,6 +1233,11 @@ func (c *Ctx) lenAxioms(st *State, mt *types.Map) {
 	c.emit(fmt.Sprintf("(declare-fun %s (Ref) %s)", wit, ks))
 	c.assert("(forall ((m Ref)) (! (and (>= (select " + l + " m) 0) (=> (> (select " + l + " m) 0) (select (select " + d + " m) (" + wit + " m)))) :pattern ((select " + l + " m))))")
 	c.assert("(forall ((m Ref) (k " + ks + ")) (! (=> (select (select " + d + " m) k) (> (select " + l + " m) 0)) :pattern ((select (select " + d + " m) k))))")
+	// two-element facts: len > 1 yields a second member; two distinct members imply len >= 2
+	wit2 := fmt.Sprintf("lenwit2_%d", c.n)
+	c.emit(fmt.Sprintf("(declare-fun %s (Ref) %s)", wit2, ks))
+	c.assert("(forall ((m Ref)) (! (=> (> (select " + l + " m) 1) (and (select (select " + d + " m) (" + wit2 + " m)) (not (= (" + wit2 + " m) (" + wit + " m))))) :pattern ((select " + l + " m))))")
+	c.assert("(forall ((m Ref) (k1 " + ks + ") (k2 " + ks + ")) (! (=> (and (select (select " + d + " m) k1) (select (select " + d + " m) k2) (not (= k1 k2))) (> (select " + l + " m) 1)) :pattern ((select (select " + d + " m) k1) (select (select " + d + " m) k2))))")
 	c.assumed["len(map) is modelled by a counter kept consistent with the domain (len >= 0; len > 0 iff some key is present)"] = true
 }
 
@@ -1402,4 +1424,67 @@ func (fr *Frame) applyLoopGhostSet(gs *GhostSet, h, from *ssa.BasicBlock, subst 
 	name := ghostCompName(g)
 	cur := c.comp(fr.st, name, s)
 	c.setComp(fr.st, name, storeN(cur, idx, val.T))
+}
+
+type autoInv struct {
+	comp string
+	goal func(st *State) Term
+}
+
+// autoFrameInvs: for a function with a declared modifies set, every loop
+// carries the frame of the components it modifies: rows of objects that
+// existed at function entry and are not among the declared objects keep their
+// entry value.
+func (fr *Frame) autoFrameInvs(h *ssa.BasicBlock) []autoInv {
+	c := fr.c
+	if !fr.top || fr.fc == nil || !fr.fc.HasMod || c.dry {
+		return nil
+	}
+	if fr.declMods == nil {
+		return nil
+	}
+	if fr.declMods["all"] != nil {
+		return nil
+	}
+	mods := c.loopMods[fr.loopKey(h)]
+	var names []string
+	for n := range mods {
+		names = append(names, n)
+	}
+	sort.Strings(names)
+	entryAlloc := fr.entry.comps["alloc"]
+	if entryAlloc == "" {
+		entryAlloc = c.compInit["alloc"]
+	}
+	var out []autoInv
+	for _, n := range names {
+		n := n
+		if n == "alloc" || n == "held" || strings.HasPrefix(n, "RV_") || strings.HasPrefix(n, "recvd") || strings.HasPrefix(n, "closed") {
+			continue
+		}
+		at, declared := fr.declMods[n]
+		if declared && len(at) == 0 {
+			continue // whole component may change
+		}
+		srt := c.compSort[n]
+		ent, ok := fr.entry.comps[n]
+		if !ok {
+			ent = c.compInit[n]
+		}
+		if !strings.HasPrefix(srt, "(Array Ref ") {
+			if _, isNew := fr.declMods["new:"+n]; isNew {
+				continue
+			}
+			out = append(out, autoInv{n, func(st *State) Term { return "(= " + st.comps[n] + " " + ent + ")" }})
+			continue
+		}
+		hyp := []Term{"(select " + entryAlloc + " r)"}
+		for _, t := range at {
+			hyp = append(hyp, "(not (= r "+t+"))")
+		}
+		out = append(out, autoInv{n, func(st *State) Term {
+			return "(forall ((r Ref)) (! (=> " + and(hyp...) + " (= (select " + st.comps[n] + " r) (select " + ent + " r))) :pattern ((select " + st.comps[n] + " r))))"
+		}})
+	}
+	return out
 }
